@@ -60,3 +60,22 @@ Fixpoint iroot_search (fuel : nat) (n d r : Z) : Z :=
   | S f => if (2 ^ d * n <? (2 * r + 1) ^ d)%Z then r else iroot_search f n d (r + 1)%Z
   end.
 Definition iroot_round (n d : Z) : Z := iroot_search (Z.to_nat n) n d 0%Z.
+
+(* A run-length table of an integer function on [lo, limit]: entries (hi, r) mean "value r on lo..hi", the next
+   entry starts at hi+1.  table_ok d lo limit l: the table covers exactly lo..limit and every entry satisfies the
+   nearest-root inequalities for its whole range.  (Used to check, on every run, the values that
+   round(np.power(n, 1/d)) takes in binary64 against iroot_round; soundness is proved in Proofs_Index.) *)
+Fixpoint table_ok (d lo limit : Z) (l : list (Z * Z)) : bool :=
+  match l with
+  | [] => (limit <? lo)%Z
+  | (hi, r) :: t =>
+      (lo <=? hi)%Z && (hi <=? limit)%Z && (0 <=? r)%Z
+      && (2 ^ d * hi <? (2 * r + 1) ^ d)%Z
+      && ((r =? 0)%Z || ((2 * r - 1) ^ d <=? 2 ^ d * lo)%Z)
+      && table_ok d (hi + 1) limit t
+  end.
+Fixpoint table_lookup (lo : Z) (l : list (Z * Z)) (n : Z) : option Z :=
+  match l with
+  | [] => None
+  | (hi, r) :: t => if (n <=? hi)%Z then (if (lo <=? n)%Z then Some r else None) else table_lookup (hi + 1) t n
+  end.
